@@ -1492,3 +1492,143 @@ func codecReplay(t *testing.T, r *run) {
 		t.Fatal("replay file names no input")
 	}
 }
+
+// ---------------------------------------------------------------------------
+// Family codeclaws (audit task A8): the three clauses that the Coq theorems of
+// C17 assume of the libraries (json_lib_ok, Proofs/CodecLaws2.v), stated on the
+// real time and encoding/json directly, not through the package:
+//   law1  an ASCII string comes back unchanged from json.Marshal + json.Unmarshal
+//         into interface{};
+//   law2  t.Format(time.RFC3339) is ASCII, for every instant;
+//   law3  inside RFC 3339's domain time.Parse(time.RFC3339, t.Format(time.RFC3339))
+//         is t floored to the second with the same zone offset.
+// The verdicts are computed here (fields law1/law2/law3) and again in Coq from
+// the raw observations (Model/CodecLawCase.v), which also compares the concrete
+// RFC 3339 formatter/parser and JSON printer/parser of Model/Rfc3339.v and
+// Model/JsonLib.v (the instance of Properties/C17I.v) with the real library.
+
+func init() {
+	families["codeclaws"] = codecLaws
+}
+
+func cdGenLawTime(r *run, i int) (time.Time, string) {
+	switch i % 12 {
+	case 0: // beyond year 9999 / before year 0: outside the domain, law2 only
+		if r.rng.IntN(2) == 0 {
+			return time.Unix(cdYear9999End+1+r.rng.Int64N(400*365*86400), int64(r.rng.IntN(1000000000))).UTC(), "t:after-9999,z:utc"
+		}
+		return time.Unix(cdYear1Start-366*86400-1-r.rng.Int64N(400*365*86400), 0).UTC(), "t:before-0,z:utc"
+	case 1: // year 0, which RFC 3339 allows
+		return time.Unix(cdYear1Start-1-r.rng.Int64N(366*86400), int64(r.rng.IntN(1000000000))).UTC(), "t:year0,z:utc"
+	case 2: // the edges of the domain in local time
+		off := (r.rng.IntN(28*60+1) - 14*60) * 60
+		edge := []int64{-62167219200, 253402300799}[r.rng.IntN(2)]
+		return time.Unix(edge-int64(off)+int64(r.rng.IntN(3))-1, 0).In(time.FixedZone("", off)), "t:domain-edge,z:random-minutes"
+	case 3: // leap days and month ends
+		y := 1 + r.rng.IntN(9998)
+		m := time.Month(1 + r.rng.IntN(12))
+		t := time.Date(y, m+1, 1, 0, 0, 0, 0, time.UTC).Add(-time.Duration(1+r.rng.IntN(2)) * time.Second)
+		off := (r.rng.IntN(28*60+1) - 14*60) * 60
+		return t.In(time.FixedZone("", off)), "t:month-end,z:random-minutes"
+	case 4: // offsets up to a day, whole minutes
+		off := (r.rng.IntN(2*1439+1) - 1439) * 60
+		return time.Unix(cdYear2000+r.rng.Int64N(40*365*86400), int64(r.rng.IntN(1000000000))).In(time.FixedZone("", off)), "t:recent,z:wide-minutes"
+	case 5: // offsets with seconds, both signs: outside the domain
+		off := r.rng.IntN(2*50000+1) - 50000
+		return time.Unix(cdYear2000+r.rng.Int64N(40*365*86400), 0).In(time.FixedZone("", off)), "t:recent,z:seconds"
+	}
+	return cdGenTime(r, i%2 == 0)
+}
+
+func cdGenASCII(r *run) string {
+	switch r.rng.IntN(4) {
+	case 0:
+		s, _ := cdGenString(r, false)
+		ok := true
+		for i := 0; i < len(s); i++ {
+			if s[i] >= 0x80 {
+				ok = false
+			}
+		}
+		if ok {
+			return s
+		}
+		return "x"
+	case 1: // every ASCII byte in turn, including controls, quote, backslash, <, >, &, DEL
+		b := make([]byte, 128)
+		for i := range b {
+			b[i] = byte(i)
+		}
+		lo := r.rng.IntN(128)
+		return string(b[lo : lo+1+r.rng.IntN(128-lo)])
+	default:
+		b := make([]byte, r.rng.IntN(24))
+		for i := range b {
+			b[i] = byte(r.rng.IntN(128))
+		}
+		return string(b)
+	}
+}
+
+func codecLaws(t *testing.T, r *run) {
+	for i := 0; i < r.n; i++ {
+		tm, kind := cdGenLawTime(r, i)
+		ct := cdToCTime(tm)
+		text := tm.Format(time.RFC3339)
+		law2 := true
+		for j := 0; j < len(text); j++ {
+			if text[j] >= 0x80 {
+				law2 = false
+			}
+		}
+		back, perr := time.Parse(time.RFC3339, text)
+		inDom := cdRfcDom(ct)
+		backCoq := "None"
+		law3 := !inDom
+		if perr == nil {
+			bc := cdToCTime(back)
+			backCoq = "(Some " + cdCoqTime(bc) + ")"
+			law3 = !inDom || (bc.Sec == ct.Sec && bc.Nsec == 0 && bc.Off == ct.Off)
+		}
+		s := cdGenASCII(r)
+		sb, merr := json.Marshal(s)
+		var sv interface{}
+		law1 := merr == nil && json.Unmarshal(sb, &sv) == nil
+		s2 := ""
+		if law1 {
+			var isStr bool
+			s2, isStr = sv.(string)
+			law1 = isStr && s2 == s
+		}
+		val := cdGenValue(r, 3, true)
+		if i%50 == 7 { // json.Marshal must refuse these
+			val = []interface{}{1, map[string]interface{}{"x": []float64{math.NaN(), math.Inf(1), math.Inf(-1)}[r.rng.IntN(3)]}}
+		}
+		cv, err := cdToCval(val)
+		if err != nil {
+			t.Fatal(err)
+		}
+		mb, verr := json.Marshal(val)
+		treeCoq, treeKind := "None", "marshal-error"
+		if verr == nil {
+			var tree interface{}
+			if err := json.Unmarshal(mb, &tree); err != nil {
+				t.Fatalf("json.Unmarshal refuses json.Marshal's output %q: %v", mb, err)
+			}
+			tv, err := cdToCval(tree)
+			if err != nil {
+				t.Fatal(err)
+			}
+			treeCoq, treeKind = "(Some "+cdCoqCval(tv)+")", "tree:"+cv.K
+		} else {
+			mb = nil
+		}
+		r.emit(map[string]interface{}{
+			"kind": []string{kind, treeKind}, "t": ct, "text": text, "parse_error": perr != nil, "in_domain": inDom,
+			"ascii": cdHx(s), "ascii_back": cdHx(s2), "marshal": cdHx(string(mb)),
+			"law1": law1, "law2": law2, "law3": law3,
+			"coq": fmt.Sprintf("(mkLW %s %s %s %s %s %s %s %s)", cdCoqTime(ct), cdCoqHx([]byte(text)), backCoq,
+				cdCoqHx([]byte(s)), cdCoqHx([]byte(s2)), cdCoqCval(cv), cdCoqHx(mb), treeCoq),
+		})
+	}
+}
